@@ -65,53 +65,7 @@ func attributeWalkComplete(c *core.Ctx) {
 				}
 				return true
 			})
-			// exits
-			var exits []ast.Stmt
-			var walk func(s ast.Stmt, breakable bool)
-			walkList := func(l []ast.Stmt, b bool) {
-				for _, s := range l {
-					walk(s, b)
-				}
-			}
-			walk = func(s ast.Stmt, inner bool) {
-				switch x := s.(type) {
-				case *ast.BlockStmt:
-					walkList(x.List, inner)
-				case *ast.IfStmt:
-					walk(x.Body, inner)
-					if x.Else != nil {
-						walk(x.Else, inner)
-					}
-				case *ast.SwitchStmt:
-					for _, cl := range x.Body.List {
-						walkList(cl.(*ast.CaseClause).Body, true)
-					}
-				case *ast.TypeSwitchStmt:
-					for _, cl := range x.Body.List {
-						walkList(cl.(*ast.CaseClause).Body, true)
-					}
-				case *ast.SelectStmt:
-					for _, cl := range x.Body.List {
-						walkList(cl.(*ast.CommClause).Body, true)
-					}
-				case *ast.ForStmt:
-					walk(x.Body, true)
-				case *ast.RangeStmt:
-					walk(x.Body, true)
-				case *ast.LabeledStmt:
-					walk(x.Stmt, inner)
-				case *ast.ReturnStmt:
-					exits = append(exits, x)
-				case *ast.BranchStmt:
-					if x.Tok == token.BREAK && (!inner || x.Label != nil) {
-						exits = append(exits, x)
-					}
-					if x.Tok == token.GOTO {
-						exits = append(exits, x)
-					}
-				}
-			}
-			walk(fs.Body, false)
+			exits := loopExits(fs.Body)
 			construct := fmt.Sprintf("%s attribute walk #%d", f.Name(), ord)
 			if len(exits) == 0 {
 				c.Hold(rule, construct+" has no early exit", fs.Pos(), "every attribute of the UPDATE is visited")
@@ -167,6 +121,119 @@ func attributeWalkComplete(c *core.Ctx) {
 				c.Check(why == "", rule, fmt.Sprintf("%s exit #%d", construct, i+1), ex.Pos(),
 					"the walk over the path attributes is left early although "+why+": an attribute that comes later in the same UPDATE (MP_UNREACH_NLRI behind MP_REACH_NLRI or the other way round) is never processed — its announcements are not installed or its withdrawals not applied")
 			}
+			return true
+		})
+	}
+}
+
+// loopExits returns the statements in a loop body that leave the loop: return, goto, and break that is not captured by an
+// inner switch/select/loop (labelled breaks count).
+func loopExits(body *ast.BlockStmt) []ast.Stmt {
+	var exits []ast.Stmt
+	var walk func(s ast.Stmt, inner bool)
+	walkList := func(l []ast.Stmt, b bool) {
+		for _, s := range l {
+			walk(s, b)
+		}
+	}
+	walk = func(s ast.Stmt, inner bool) {
+		switch x := s.(type) {
+		case *ast.BlockStmt:
+			walkList(x.List, inner)
+		case *ast.IfStmt:
+			walk(x.Body, inner)
+			if x.Else != nil {
+				walk(x.Else, inner)
+			}
+		case *ast.SwitchStmt:
+			for _, cl := range x.Body.List {
+				walkList(cl.(*ast.CaseClause).Body, true)
+			}
+		case *ast.TypeSwitchStmt:
+			for _, cl := range x.Body.List {
+				walkList(cl.(*ast.CaseClause).Body, true)
+			}
+		case *ast.SelectStmt:
+			for _, cl := range x.Body.List {
+				walkList(cl.(*ast.CommClause).Body, true)
+			}
+		case *ast.ForStmt:
+			walk(x.Body, true)
+		case *ast.RangeStmt:
+			walk(x.Body, true)
+		case *ast.LabeledStmt:
+			walk(x.Stmt, inner)
+		case *ast.ReturnStmt:
+			exits = append(exits, x)
+		case *ast.BranchStmt:
+			if x.Tok == token.BREAK && (!inner || x.Label != nil) {
+				exits = append(exits, x)
+			}
+			if x.Tok == token.GOTO {
+				exits = append(exits, x)
+			}
+		}
+	}
+	walk(body, false)
+	return exits
+}
+
+// capabilityWalkComplete: an OPEN may carry several Capabilities optional parameters, each with several capabilities
+// (RFC 5492 §4).  Every range loop over the optional parameters / over a capability list in package server runs to the
+// end: no return, break or goto leaves it — here a "first match" is not a valid shortcut, a later parameter can carry
+// the 4-octet AS, role, add-path or multiprotocol capability.
+func capabilityWalkComplete(c *core.Ctx, rule string, floor int) {
+	p := c.P
+	c.Floor(rule, floor)
+	optT := p.Named("protocols/bgp/packet", "OptParam")
+	capsT := p.Named("protocols/bgp/packet", "Capabilities")
+	capT := p.Named("protocols/bgp/packet", "Capability")
+	if optT == nil || capsT == nil || capT == nil {
+		c.Undecided(rule, "packet.OptParam / Capabilities", token.NoPos, "types not found")
+		return
+	}
+	isWalked := func(t types.Type) string {
+		if t == nil {
+			return ""
+		}
+		if types.Identical(t, capsT) {
+			return "the capabilities of one parameter"
+		}
+		if sl, ok := t.Underlying().(*types.Slice); ok {
+			switch {
+			case types.Identical(sl.Elem(), optT):
+				return "the optional parameters of the OPEN"
+			case types.Identical(sl.Elem(), capT):
+				return "the capabilities of one parameter"
+			case types.Identical(sl.Elem(), capsT):
+				return "the capability lists of the OPEN"
+			}
+		}
+		return ""
+	}
+	for _, f := range p.FuncsIn(srv) {
+		if f.Decl.Body == nil || isTestFn(p, f) {
+			continue
+		}
+		ord := 0
+		ast.Inspect(f.Decl.Body, func(n ast.Node) bool {
+			rs, ok := n.(*ast.RangeStmt)
+			if !ok {
+				return true
+			}
+			what := isWalked(f.Pkg.TypesInfo.TypeOf(rs.X))
+			if what == "" {
+				return true
+			}
+			ord++
+			c.Analysed(f)
+			exits := loopExits(rs.Body)
+			pos := rs.Pos()
+			if len(exits) > 0 {
+				pos = exits[0].Pos()
+			}
+			c.Check(len(exits) == 0, rule, fmt.Sprintf("%s walk #%d over %s runs to the end", f.Name(), ord, what), pos,
+				"the walk over "+what+" is left early: capabilities the peer put into a later Capabilities parameter (4-octet AS number, role, add-path, multiprotocol) are never processed, so the session is set up as if the peer had not advertised them")
 			return true
 		})
 	}
